@@ -395,6 +395,25 @@ Definition bbp_erf (x : float) : float :=
   if PrimFloat.ltb x 0 then (- 1) * erf_of_nonneg ((- 1) * x) else erf_of_nonneg x.
 Definition bbp_normal_cdf (x : float) : float := c_half * (1 + bbp_erf (x / PrimFloat.sqrt c_two)).
 Definition bbp_estimate (n k : Z) : float := if (n =? 0)%Z then c_half else fofZ k / fofZ n.
+
+(* ---- bounds_on_ratios_in_sampled_sets.hpp (NUM_STD_DEVS = 2.0). The approximate bounds on p go through exp/pow
+        (bounds_binomial_proportions) and are read from the environment, evaluated at the kappa the model computes ---- *)
+Definition c_0_01 : float := 0x1.47ae147ae147bp-7.          (* 0.01 *)
+Definition hacky_adjuster (f : float) : float :=
+  let tmp := PrimFloat.sqrt (1 - f) in
+  if PrimFloat.leb f c_half then tmp else tmp + c_0_01 * (f - c_half).
+Definition ratio_kappa (f : float) : float := c_two * hacky_adjuster f.
+(* check_inputs: throws when a < b or f > 1 or f <= 0 (NaN passes, as coded) *)
+Definition ratio_inputs_ok (a b : Z) (f : float) : bool :=
+  negb (a <? b)%Z && negb (PrimFloat.ltb 1 f) && negb (PrimFloat.leb f 0).
+Definition ratio_lb (a b : Z) (f inner : float) : float :=
+  if (a =? 0)%Z then 0 else if PrimFloat.eqb f 1 then fofZ b / fofZ a else inner.
+Definition ratio_ub (a b : Z) (f inner : float) : float :=
+  if (a =? 0)%Z then 1 else if PrimFloat.eqb f 1 then fofZ b / fofZ a else inner.
+Definition ratio_est (a b : Z) : float := if (a =? 0)%Z then c_half else fofZ b / fofZ a.
+(* bounds_on_ratios_in_theta_sketched_sets: the choice of (count_a, count_b, f) from the two sketches:
+   count_a = entries of A below theta(B) (all of them when the thetas are equal), count_b = retained of B, f = theta(B) *)
+Definition ratio_count_a (n_a theta64_a theta64_b below : Z) : Z := if (theta64_a =? theta64_b)%Z then n_a else below.
 Local Close Scope float_scope.
 
 (* ------------------------------------------------------------------------------------------------ *)
@@ -500,6 +519,29 @@ Definition step (s : unit) (o e : line) : unit * outline :=
   | 8 :: _ => (s, cpc_bounds e)             (* cpc sketch / union result / poked sketch *)
   | [9; n; k] =>                            (* bounds_binomial_proportions::estimate_unknown_p *)
       if n <? k then (s, (refused, [])) else (s, ([fb (bbp_estimate n k)], []))
+  | [12; a; b; fbits] =>                    (* bounds_on_ratios_in_sampled_sets; env = kappa, inner lb, inner ub *)
+      let f := bf fbits in
+      if ratio_inputs_ok a b f then
+        match e with
+        | [kp; il; iu] =>
+            let mask := if (a =? 0) || PrimFloat.eqb f PrimFloat.one || (fb (ratio_kappa f) =? kp) then 0 else 1 in
+            (s, ([fb (ratio_est a b); fb (ratio_lb a b f (bf il)); fb (ratio_ub a b f (bf iu)); mask], []))
+        | _ => (s, ([-3], []))
+        end
+      else (s, (refused, []))
+  | 13 :: _ =>                              (* bounds_on_ratios_in_theta_sketched_sets on real sketches A, B *)
+      match e with
+      | [n_a; t_a; n_b; t_b; below; kp; il; iu] =>
+          if t_a <? t_b then (s, (refused, [])) else
+          let ca := ratio_count_a n_a t_a t_b below in
+          let f := theta_frac t_b in
+          if ca =? 0 then (s, ([fb c_half; fb PrimFloat.zero; fb PrimFloat.one; 0], [ca; n_b]))
+          else if ratio_inputs_ok ca n_b f then
+            let mask := if PrimFloat.eqb f PrimFloat.one || (fb (ratio_kappa f) =? kp) then 0 else 1 in
+            (s, ([fb (ratio_est ca n_b); fb (ratio_lb ca n_b f (bf il)); fb (ratio_ub ca n_b f (bf iu)); mask], [ca; n_b]))
+          else (s, (refused, []))
+      | _ => (s, ([-3], []))
+      end
   | [10; xb] =>                             (* bounds_binomial_proportions::erf, normal_cdf *)
       (s, ([fb (bbp_erf (bf xb)); fb (bbp_normal_cdf (bf xb))], []))
   | _ => (s, ([-2], []))
